@@ -83,6 +83,7 @@ def gen_cases(r, quick, only=None):
                 c["auto_Ks"] = sorted(r2.sample(range(1, T), ne))
             c["boundary_Ks"] = sorted(r2.sample(range(T), ne))
             c["buffer_Ks"] = [(K, r2.choice(c["fmts"])) for K in r2.sample(c["Ks"], 2)]
+            c["reject_Ks"] = sorted(r2.sample(c["Ks"], 2))
             # a job resumed twice; not for the objects whose single resume is a recorded finding
             ch = set()
             if not (fam in ("pabf", "runave") or c.get("sigtags") or c.get("collapse")):
